@@ -32,6 +32,10 @@ def load_sidecar(path: str) -> Any:
     return mod
 
 
+class _NeedsLazyOld(Exception):
+    pass
+
+
 class Native:
     def __init__(self, sidecar_path: str, repo_root: str):
         here = os.path.dirname(os.path.dirname(os.path.abspath(__file__)))
@@ -49,6 +53,67 @@ class Native:
         for extra in getattr(self.side, "NATIVE_SPEC_SOURCES", []):
             exec(getattr(self.side, extra), self.ns)
         self.files = getattr(self.side, "FILES", None) or {"": self.side.MODULE}
+        self.universe: dict[str, list[Any]] = {}
+        self.ns.setdefault("forall", lambda fn, *tys, **kw: self._quant(all, fn, tys))
+        self.ns.setdefault("exists", lambda fn, *tys, **kw: self._quant(any, fn, tys))
+        # pure functions under contract double as spec symbols in clause texts
+        for name, c in self.side.CONTRACTS.items():
+            if c.get("pure") and name not in self.ns and "." not in name:
+                try:
+                    self.ns[name] = self.real(name)
+                except Exception:  # noqa: BLE001
+                    pass
+
+    def _quant(self, agg: Any, fn: Any, tys: tuple[str, ...]) -> bool:
+        import itertools
+        doms = [self.universe.get(t, []) for t in tys]
+        return agg(fn(*combo) for combo in itertools.product(*doms))
+
+    def collect_universe(self, args: Any) -> None:
+        """Finite domains for the native reading of forall/exists: every record object
+        and every string reachable from the arguments of the current case."""
+        uni: dict[str, dict[int, Any]] = {}
+        strs: dict[str, None] = {}
+        seen: set[int] = set()
+
+        def walk(x: Any) -> None:
+            if id(x) in seen:
+                return
+            seen.add(id(x))
+            if isinstance(x, str):
+                strs[x] = None
+            elif isinstance(x, dict):
+                for k, v in x.items():
+                    walk(k)
+                    walk(v)
+            elif isinstance(x, (list, tuple, set, frozenset)):
+                for v in x:
+                    walk(v)
+            elif hasattr(x, "__dict__") and not isinstance(x, type):
+                uni.setdefault(type(x).__name__, {})[id(x)] = x
+                for v in vars(x).values():
+                    walk(v)
+        walk(args)
+        self.universe = {k: list(v.values()) for k, v in uni.items()}
+        self.universe["str"] = list(strs)
+
+    def snapshot_mutable(self) -> dict[int, dict[str, Any]]:
+        snap: dict[int, dict[str, Any]] = {}
+        for tname, fields in getattr(self.side, "MUTABLE_FIELDS", {}).items():
+            for obj in self.universe.get(tname, []):
+                snap[id(obj)] = {f: copy.deepcopy(getattr(obj, f)) for f in fields}
+        return snap
+
+    def swap_mutable(self, snap: dict[int, dict[str, Any]]) -> dict[int, dict[str, Any]]:
+        """Install the field values of `snap` on the live objects; returns what was there."""
+        cur: dict[int, dict[str, Any]] = {}
+        for tname, fields in getattr(self.side, "MUTABLE_FIELDS", {}).items():
+            for obj in self.universe.get(tname, []):
+                if id(obj) in snap:
+                    cur[id(obj)] = {f: getattr(obj, f) for f in fields}
+                    for f, v in snap[id(obj)].items():
+                        setattr(obj, f, v)
+        return cur
 
     def real(self, qualname: str) -> Any:
         rel = self.files.get(qualname, self.files.get("", ""))
@@ -60,8 +125,31 @@ class Native:
         return obj
 
     # ---------------------------------------------------------------- clause evaluation
+    old_snapshot: Any = None
+
     def eval_clause(self, text: str, env: dict[str, Any], old_env: dict[str, Any] | None) -> Any:
         node = ast.parse(text.strip(), mode="eval")
+        if old_env is not None and self.old_snapshot is not None and "old(" in text:
+            # old(e) becomes a call that evaluates e (a closure over any bound variables) in the pre-state heap
+            class L(ast.NodeTransformer):
+                def visit_Call(s, n: ast.Call) -> Any:  # noqa: N805
+                    s.generic_visit(n)
+                    if isinstance(n.func, ast.Name) and n.func.id == "old":
+                        lam = ast.Lambda(args=ast.arguments(posonlyargs=[], args=[], kwonlyargs=[], kw_defaults=[], defaults=[]), body=n.args[0])
+                        return ast.copy_location(ast.Call(func=ast.Name(id="__old_eval", ctx=ast.Load()), args=[lam], keywords=[]), n)
+                    return n
+            node = ast.fix_missing_locations(L().visit(node))
+
+            def __old_eval(thunk: Any) -> Any:
+                cur = self.swap_mutable(self.old_snapshot)
+                try:
+                    return thunk()
+                finally:
+                    self.swap_mutable(cur)
+            g = dict(self.ns)
+            g.update(env)
+            g["__old_eval"] = __old_eval
+            return eval(compile(node, "<clause>", "eval"), g)
         if old_env is not None:
             olds: dict[str, Any] = {}
 
@@ -69,6 +157,10 @@ class Native:
                 def visit_Call(s, n: ast.Call) -> Any:  # noqa: N805
                     if isinstance(n.func, ast.Name) and n.func.id == "old":
                         key = f"__old{len(olds)}"
+                        if self.old_snapshot is not None:
+                            # reference semantics: evaluate on the live objects with their pre-state field values installed
+                            # (bound variables of an enclosing quantifier cannot be captured here: see eval_clause)
+                            raise _NeedsLazyOld()
                         olds[key] = eval(compile(ast.Expression(n.args[0]), "<old>", "eval"), dict(self.ns), dict(old_env))
                         return ast.copy_location(ast.Name(id=key, ctx=ast.Load()), n)
                     return s.generic_visit(n)
@@ -83,6 +175,8 @@ class Native:
         """Execute the real function on `args`; evaluate its contract natively."""
         c = self.side.CONTRACTS[fname]
         out: dict[str, Any] = {"function": fname, "violations": [], "skipped": False}
+        self.collect_universe(args)
+        self.old_snapshot = None
         try:
             for lab, txt in c.get("requires", {}).items():
                 if not self.eval_clause(txt, args, None):
@@ -93,7 +187,11 @@ class Native:
             out["skipped"] = True
             out["why"] = f"requires raised {type(e).__name__}: {e}"
             return out
-        old = copy.deepcopy(args)
+        if getattr(self.side, "MUTABLE_FIELDS", None):
+            self.old_snapshot = self.snapshot_mutable()
+            old = dict(args)  # same objects; their pre-state fields are in the snapshot
+        else:
+            old = copy.deepcopy(args)
         if hasattr(self.side, "native_old"):
             old = self.side.native_old(self, fname, args, old)
         fn = self.real(fname)
@@ -111,17 +209,31 @@ class Native:
         out["raised"] = type(raised).__name__ if raised is not None else None
         out["result"] = safe_repr(result)
         raises = c.get("raises", {})
+        def _ev(nm: str, txt: str) -> Any:
+            try:
+                return bool(self.eval_clause(txt, old, None))
+            except Exception as e:  # noqa: BLE001  (the condition itself is undefined on this input)
+                out.setdefault("clause_errors", []).append(f"raises.{nm}: {type(e).__name__}: {e}")
+                return None
+        if self.old_snapshot is not None:
+            _post = self.swap_mutable(self.old_snapshot)   # `raises` conditions speak about the pre-state
+            try:
+                pre_raise = {nm: _ev(nm, txt) for nm, txt in raises.items()}
+            finally:
+                self.swap_mutable(_post)
+        else:
+            pre_raise = {nm: _ev(nm, txt) for nm, txt in raises.items()}
         if raised is not None:
             nm = type(raised).__name__
             if nm in raises:
-                if not self.eval_clause(raises[nm], old, None):
+                if pre_raise[nm] is False:
                     out["violations"].append(f"raises.{nm}.only_when")
             else:
                 out["violations"].append(f"no_raise.{nm}")
                 out["exception"] = "".join(traceback.format_exception_only(type(raised), raised)).strip()[:300]
             return out
         for nm, txt in raises.items():
-            if self.eval_clause(txt, old, None):
+            if pre_raise[nm]:
                 out["violations"].append(f"raises.{nm}.whenever")
         env = dict(args)
         env["result"] = result
@@ -153,12 +265,18 @@ def main(argv: list[str]) -> int:
     if cmd == "crosscheck":
         rng = random.Random(arg.get("seed", 0))
         n = arg.get("n", 200)
-        funcs = arg.get("functions") or list(getattr(side, "GEN", {}))
+        funcs = arg.get("functions") or list(dict.fromkeys(list(getattr(side, "GEN", {})) + list(getattr(side, "SMALL", {}))))
         per: dict[str, Any] = {}
         for f in funcs:
-            gen = side.GEN[f]
-            stats = {"cases": 0, "skipped": 0, "violations": 0, "first_violation": None, "sample": None}
-            for args in gen(nat, rng, n):
+            import itertools as _it
+            gens = []
+            if f in getattr(side, "SMALL", {}):
+                gens.append(side.SMALL[f](nat))
+            if f in getattr(side, "GEN", {}):
+                gens.append(side.GEN[f](nat, rng, n))
+            stats = {"cases": 0, "skipped": 0, "violations": 0, "first_violation": None, "sample": None,
+                     "small_scope_enumeration": f in getattr(side, "SMALL", {})}
+            for args in _it.chain(*gens):
                 shown = safe_repr(args)
                 r = nat.run_case(f, args)
                 stats["cases"] += 1
@@ -220,8 +338,11 @@ def main(argv: list[str]) -> int:
 
 
 def encode_args(side: Any, f: str, args: dict[str, Any]) -> Any:
-    enc = getattr(side, "ENCODE", {}).get(f)
-    return enc(args) if enc else None
+    try:
+        enc = getattr(side, "ENCODE", {})[f]
+    except KeyError:
+        return None
+    return enc(args)
 
 
 if __name__ == "__main__":
